@@ -137,7 +137,22 @@ func lazyCase(c *fw.Ctx, stream string, malformed bool) {
 			}()
 		}
 	}
-	c.Model(stream, strings.Join(req, " ; "), strings.Join(rep, " ; "))
+	if malformed {
+		// on damaged input the property only asks for "an error or a result, never a panic": which error a
+		// failing nested decode reports (overflow vs invalid data) is not part of it, and not in the model
+		coarse := func(s string) string {
+			parts := strings.Split(s, " ; ")
+			for i, p := range parts {
+				if p == "of" {
+					parts[i] = "err"
+				}
+			}
+			return strings.Join(parts, " ; ")
+		}
+		c.ModelCmp(stream, strings.Join(req, " ; "), coarse(strings.Join(rep, " ; ")), coarse)
+	} else {
+		c.Model(stream, strings.Join(req, " ; "), strings.Join(rep, " ; "))
+	}
 	c.Count(stream, desc, outcome, len(data), len(data) > 0 && len(def.entries) > 0)
 	if r.Intn(250) == 0 {
 		c.Sample(map[string]interface{}{"stream": stream, "case": trunc(desc, 220), "requests": trunc(strings.Join(req[2:], " ; "), 200), "replies": trunc(strings.Join(rep, " ; "), 200)})
